@@ -10,6 +10,13 @@ ASSUMPTIONS = ["G1/G2 compressed codecs of dusk-bls12_381 re-implemented in the 
 THEOREMS_NOTE = "Plonk/Props/C16.lean"
 
 
+def concat_progs(a, b):
+    """source of program a followed by program b with b's register references shifted"""
+    import re
+    na = len(a.regs)
+    return a.src() + ";" + re.sub(r"\$(\d+)", lambda m: "$%d" % (int(m.group(1)) + na), b.src())
+
+
 def qm_short_circuit(ctx, rng):
     """all 15 key polynomials of full length except q_m, whose interpolant loses its top coefficient
     (one solved q_m coefficient): the circuit on which ProverKey::to_var_bytes used to truncate"""
@@ -45,6 +52,19 @@ def run(ctx, broken):
     if ctx.tier != "quick":
         progs += [("sized-%d" % g, sized_program(rng, g, (4,)).src(), 2 * g + 16) for g in (9, 31, 33, 60, 64, 120)]
     cs = []
+    # circuits using exactly ONE of the custom widgets (its selector polynomial has full length, the others are empty), and pairs:
+    # a codec that takes a length / offset of one key polynomial from another one is invisible when all are equal
+    from props.c05 import raw_family_case
+    fams = ["range", "logic", "var", "fixed"]
+    for fam in fams:
+        progs.append(("only-" + fam, raw_family_case(rng, fam, False, with_body=False).src(), 64))
+    for i in range(len(fams)):
+        for j in range(i + 1, len(fams)):
+            if ctx.tier != "quick" or (i + j) % 2 == 1:
+                a_, b_ = raw_family_case(rng, fams[i], False, with_body=False), raw_family_case(rng, fams[j], False, with_body=False)
+                # second program's registers are shifted by the first one's
+                progs.append(("only-%s+%s" % (fams[i], fams[j]), None, 64))
+                progs[-1] = (progs[-1][0], concat_progs(a_, b_), 64)
     # (1) route flags: decoded prover proves identically, decoded verifier verifies (incl. the q_m-short circuit)
     qsrc, qn = qm_short_circuit(ctx, rng)
     draws = [draw_hex(rng) for _ in range(14)]
